@@ -1667,6 +1667,53 @@ pub fn run_c18(cfg: &Config) -> i32 {
 		rep
 	});
 	total.merge(rep);
+
+	// arrays (and objects) whose neighbouring members are number literals related to each other: a long
+	// literal next to each of its prefixes that is itself a number, in both orders, and repeated
+	{
+		let rep = parallel(cfg.threads, if cfg.san { 2 } else { 16 }, |i| {
+			let mut rep = Report::new();
+			let mut rng = Rng::new(seed).fork(0xc18a + i as u64);
+			let mut rd = Reader::new();
+			for round in 0..(if cfg.san { 2 } else { 12 }) {
+				let long: String = match (i + round) % 6 {
+					0 => {
+						let mut s = String::new();
+						for j in 0..rng.range(17, 30) {
+							s.push(char::from(b'0' + if j == 0 { 1 + rng.below(9) } else { rng.below(10) } as u8));
+						}
+						s
+					}
+					1 => format!("0.{}", (0..rng.range(15, 30)).map(|_| char::from(b'0' + rng.below(10) as u8)).collect::<String>()),
+					2 => format!("-{}.{}", 1 + rng.below(9), (0..rng.range(15, 24)).map(|_| char::from(b'0' + rng.below(10) as u8)).collect::<String>()),
+					3 => format!("{}e{}", (0..rng.range(14, 20)).map(|j| char::from(b'0' + if j == 0 { 1 } else { rng.below(10) } as u8)).collect::<String>(), rng.range(10, 99)),
+					4 => format!("1{}", "0".repeat(rng.range(16, 24))),
+					_ => format!("{}.{}E-{}", 1 + rng.below(9), (0..rng.range(8, 14)).map(|_| char::from(b'0' + rng.below(10) as u8)).collect::<String>(), rng.range(100, 300)),
+				};
+				let prefixes: Vec<String> = (1..long.len()).map(|l| long[..l].to_string()).filter(|p| matches!(rd.read(p.as_bytes(), true).root, Some(RVal::Num(_)))).collect();
+				let num = |s: &str| RVal::Num(s.to_string());
+				let mut docs: Vec<RVal> = Vec::new();
+				for p in &prefixes {
+					docs.push(RVal::Arr(vec![num(&long), num(p)]));
+					docs.push(RVal::Arr(vec![num(p), num(&long), num(p)]));
+					docs.push(RVal::Obj(vec![("a".into(), num(&long)), ("b".into(), num(p))]));
+				}
+				docs.push(RVal::Arr(std::iter::once(num(&long)).chain(prefixes.iter().rev().map(|p| num(p))).collect()));
+				docs.push(RVal::Arr(prefixes.iter().map(|p| num(p)).chain(std::iter::once(num(&long))).chain([num(&long), num(&prefixes[prefixes.len() / 2]), num(&long)]).collect()));
+				for r in docs {
+					rep.distinct_hash(fnv(doc_of(&r).as_bytes()) ^ 2);
+					c18_from_js(&mut rep, &r);
+					if let Ok(sj) = serde_json::from_str::<serde_json::Value>(&doc_of(&r)) {
+						c18_from_sj(&mut rep, &sj);
+					}
+					rep.count("family:arrays-of-related-number-literals", 1);
+				}
+			}
+			rep
+		});
+		total.merge(rep);
+	}
+
 	conclude(
 		cfg,
 		EvidenceMeta {
